@@ -8,7 +8,41 @@ FIX = """        except BaseException:
             raise
 """
 
+NEW_START = """        started = []
+        try:
+            for a_patch in patches:
+                a_patch.start()
+                started.append(a_patch)
+        except BaseException:
+            # A patch that cannot start (e.g., `time` or `sys` was blocked) must not leave the others active
+            for a_patch in reversed(started):
+                a_patch.stop()
+            raise
+        self._current_patches.append(patches)
+"""
+
 CASES = [
+    dict(name='revert-fix-start_patches-all-or-nothing', kind='mutant', rule='R3', key='_start_patches:all-or-nothing',
+         edits=[dict(file=SB, old=NEW_START,
+                     new="        self._current_patches.append(patches)\n        for a_patch in patches:\n            a_patch.start()\n")]),
+    dict(name='start_patches-tracks-before-starting', kind='mutant', rule='R3', key='_start_patches:all-or-nothing',
+         edits=[dict(file=SB, old=NEW_START,
+                     new="        self._current_patches.append(patches)\n" + NEW_START.replace("        self._current_patches.append(patches)\n", ""))]),
+    dict(name='start_mocking-tracks-buffer-before-patching', kind='mutant', rule='R3', key='_start_mocking:all-or-nothing',
+         edits=[dict(file=SB, old="        # And do the patches\n        self._start_patches(",
+                     new="        self._current_stdout.append(captured_stdout)\n        # And do the patches\n        self._start_patches("),
+                dict(file=SB, old="        # Only track the buffer once it is really capturing\n        self._current_stdout.append(captured_stdout)\n", new="")]),
+    dict(name='start_mocking-pushes-another-buffer', kind='mutant', rule='R3', key='_start_mocking:pushes-the-patched-buffer',
+         edits=[dict(file=SB, old="        self._current_stdout.append(captured_stdout)\n", new="        self._current_stdout.append(io.StringIO())\n")]),
+    # rolling back with a pop inside the pushing helper is the same behaviour
+    dict(name='twin-start_mocking-rolls-back-with-pop', kind='twin',
+         edits=[dict(file=SB, old="        # And do the patches\n        self._start_patches(",
+                     new="        self._current_stdout.append(captured_stdout)\n        # And do the patches\n        try:\n          self._start_patches("),
+                dict(file=SB, old="            patch('time.sleep', return_value=None),\n        )\n        # Only track the buffer once it is really capturing\n        self._current_stdout.append(captured_stdout)\n",
+                     new="            patch('time.sleep', return_value=None),\n          )\n        except BaseException:\n            self._current_stdout.pop()\n            raise\n")]),
+    dict(name='twin-start_patches-tracks-then-pops', kind='twin',
+         edits=[dict(file=SB, old=NEW_START,
+                     new="        self._current_patches.append(patches)\n        started = []\n        try:\n            for a_patch in patches:\n                a_patch.start()\n                started.append(a_patch)\n        except BaseException:\n            self._current_patches.pop()\n            for a_patch in started:\n                a_patch.stop()\n            raise\n")]),
     dict(name='revert-fix-tracer-reentrance', kind='mutant', rule='R5', key='re-entered', edits=[dict(file='pedal/sandbox/tracer.py',
          old="        self.old_tracers.append(sys.gettrace())\n        sys.settrace(self.tracer)\n\n    def __exit__(self, exc_type, exc_val, traceback):\n        sys.settrace(self.old_tracers.pop())",
          new="        self.old_tracer = sys.gettrace()\n        sys.settrace(self.tracer)\n\n    def __exit__(self, exc_type, exc_val, traceback):\n        sys.settrace(self.old_tracer)")]),
